@@ -421,3 +421,142 @@ func preemptHistory(c *Ctx, d *coreDrv) {
 		}
 	}
 }
+
+const quotaConfig = `partitions:
+  - name: default
+    placementrules:
+      - name: provided
+        create: false
+    queues:
+      - name: root
+        submitacl: "*"
+        limits:
+          - limit: alice
+            users:
+              - alice
+            maxresources: {cpu: %d}
+          - limit: devs
+            groups:
+              - dev
+            maxresources: {cpu: %d}
+        queues:
+          - name: a
+            limits:
+              - limit: alice in a
+                users:
+                  - alice
+                maxresources: {cpu: %d}
+          - name: b
+`
+
+// quotaHistory: a small cluster of small nodes, a user with a tight quota and another one without: asks that do not fit
+// get reserved, the quota fills up while they wait, space appears on other nodes.
+func quotaHistory(c *Ctx, d *coreDrv) {
+	s := &shimSim{c: c, d: d, nodes: map[string]bool{}, apps: map[string]bool{}, asks: map[string]*shimAsk{}, bound: map[string]string{}, foreign: map[string]string{}, gang: map[string]bool{}}
+	emit := func(op map[string]interface{}) { d.applyWithTap(op, s.absorb) }
+	lim := 8 + c.pick(8)
+	limA := lim - c.pick(4)
+	// scripted opening (60%): fill two nodes up to f free, reserve an ask of the quota-bound user that needs more than f,
+	// let another application of that user use up the quota, then free a node
+	scripted := c.chance(0.6)
+	capN, free, big := 0, 0, 0
+	if scripted {
+		capN = 6 + c.pick(5)
+		free = 2 + c.pick(2)
+		big = free + 1 + c.pick(2)
+		if big > capN-free {
+			big = capN - free
+		}
+		lim = big + c.pick(free)
+		limA = lim
+	}
+	conf := fmt.Sprintf(quotaConfig, lim, lim+4+c.pick(10), limA)
+	d.apply(map[string]interface{}{"op": "reset", "config": conf, "deny": ""})
+	if d.s == nil {
+		return
+	}
+	nn := 2 + c.pick(2)
+	for i := 1; i <= nn; i++ {
+		id := fmt.Sprintf("n%d", i)
+		cpu := 6 + c.pick(5)
+		if scripted {
+			cpu = capN
+		}
+		emit(map[string]interface{}{"op": "node", "id": id, "action": "create", "res": encRes(resources.NewResourceFromMap(map[string]resources.Quantity{"cpu": resources.Quantity(cpu)}))})
+		s.nodes[id] = true
+	}
+	type qa struct{ id, user, groups string }
+	apps := []qa{{"app-1", "alice", "dev"}, {"app-2", "bob", "ops"}, {"app-3", "alice", "dev"}, {"app-4", "carol", "dev"}}
+	for i, a := range apps {
+		emit(map[string]interface{}{"op": "app-add", "id": a.id, "queue": []string{"root.a", "root.b"}[i%2], "user": a.user, "groups": a.groups})
+		s.apps[a.id] = true
+		s.appList = append(s.appList, a.id)
+	}
+	askFor := func(app string, lo, span int) {
+		key := s.newKey("k")
+		r := resources.NewResourceFromMap(map[string]resources.Quantity{"cpu": resources.Quantity(lo + c.pick(span))})
+		emit(map[string]interface{}{"op": "alloc", "app": app, "key": key, "res": encRes(r), "ctime": s.seq, "prio": c.pick(3)})
+		s.asks[key] = &shimAsk{app: app, key: key, res: r}
+	}
+	releaseOf := func(app string) {
+		keys := []string{}
+		for k, a := range s.asks {
+			if a.app == app && (s.bound[k] != "" || c.chance(0.2)) {
+				keys = append(keys, k)
+			}
+		}
+		if len(keys) > 0 {
+			k := s.pickFrom(sortStrings(keys))
+			emit(map[string]interface{}{"op": "release", "app": app, "key": k, "type": "STOPPED_BY_RM"})
+			delete(s.asks, k)
+			delete(s.bound, k)
+		}
+	}
+	if scripted {
+		sched := func(n int) {
+			for i := 0; i < n; i++ {
+				emit(map[string]interface{}{"op": "schedule"})
+			}
+		}
+		for i := 0; i < nn; i++ {
+			askFor("app-2", capN-free, 1)
+			sched(1)
+		}
+		askFor("app-1", big, 1)
+		sched(2)
+		askFor("app-3", free, 1)
+		askFor("app-3", free, 1)
+		sched(3)
+		releaseOf("app-2")
+		sched(3)
+	}
+	nops := 30 + c.pick(60)
+	for j := 0; j < nops; j++ {
+		p := c.pick(100)
+		switch {
+		case p < 14:
+			askFor("app-2", 3, 5) // bob fills the nodes
+		case p < 34:
+			askFor([]string{"app-1", "app-3"}[c.pick(2)], 1, 5) // alice: quota bound
+		case p < 40:
+			askFor("app-4", 1, 4) // carol: group bound
+		case p < 75:
+			emit(map[string]interface{}{"op": "schedule"})
+		case p < 86:
+			releaseOf("app-2")
+		case p < 92:
+			releaseOf(s.appList[c.pick(len(s.appList))])
+		case p < 95:
+			nodes := sortedKeys(s.nodes)
+			emit(map[string]interface{}{"op": "node", "id": s.pickFrom(nodes), "action": []string{"drain", "undrain"}[c.pick(2)]})
+		default:
+			for len(s.pendConf) > 0 {
+				conf := s.pendConf[0]
+				s.pendConf = s.pendConf[1:]
+				delete(s.asks, conf["key"].(string))
+				delete(s.bound, conf["key"].(string))
+				emit(conf)
+			}
+		}
+	}
+}
